@@ -216,6 +216,8 @@ VSread(int32 vkey,  /* IN: vdata key */
     hsize       = (int)vs->wlist.ivsize; /* size as stored in HDF */
     if (nelt < 0) /* a negative record count is not a request for "all the rest" */
         HGOTO_ERROR(DFE_ARGS, FAIL);
+    if (hsize > 0 && nelt > INT32_MAX / hsize) /* the byte count must be representable */
+        HGOTO_ERROR(DFE_ARGS, FAIL);
     total_bytes = hsize * nelt;
 
     /*
@@ -511,6 +513,8 @@ VSwrite(int32       vkey,  /* IN: vdata key */
         HGOTO_ERROR(DFE_ARGS, FAIL);
 
     hdf_size    = (int)w->ivsize; /* as stored in HDF file */
+    if (hdf_size > 0 && nelt > INT32_MAX / hdf_size) /* the byte count must be representable */
+        HGOTO_ERROR(DFE_ARGS, FAIL);
     total_bytes = hdf_size * nelt;
 
     /* make sure we have a valid AID */
@@ -523,6 +527,8 @@ VSwrite(int32       vkey,  /* IN: vdata key */
      *  AND we are increasing its size
      */
     HQueryposition(vs->aid, &position);
+    if (hdf_size > 0 && nelt > INT32_MAX / hdf_size - position / hdf_size) /* ... and so must the new record count */
+        HGOTO_ERROR(DFE_ARGS, FAIL);
     new_size = (position / (int)vs->wlist.ivsize) + nelt;
 
     /* this should really be cached in the Vdata structure */
